@@ -6,6 +6,11 @@
   POSITION-TRIPLE  every Position literal in the lexer describes two points consistently: (line_number, column) is
                    from_offset(start_offset); the end is either from_offset(end_offset) in both end fields, or the start line
                    with end_column = column + L and end_offset = start_offset + L for one and the same L.
+  POSITION-GROUP   (MIR, crate-wide) a Position edited in place keeps offsets and line/column in step: an assignment to
+                   start_offset / end_offset of a position comes with assignments to its column and line fields (the start
+                   of the same line, found with rfind('\n'), needs no new line number).
+  POSITION-PAIRS   (MIR, crate-wide) each end of a Position assembled from the fields of other positions copies offset, line
+                   and column from one end of one source position.
   UNIT-MIX         (MIR dataflow over the whole crate, vlib/units.py) no str slice bound or offset derives from a count of
                    characters, and no index into a char sequence derives from a byte offset.
   CHAR-BOUNDARY    every amount added to the byte `offset` in lex_between, and every `&s[a..b]` bound, has char-boundary
@@ -97,6 +102,104 @@ def run(ctx, res):
                     res.ok("MULTILINE-TOKEN", key + ": end line/column from from_offset(end offset)")
                     res.sample({"rule": "MULTILINE-TOKEN", "regex": rx, "line": S.line(st)})
     res.floor("MULTILINE-TOKEN", "whole-match token positions in lex_between", n_pos, 4)
+
+    # ---- POSITION-GROUP: a Position that is edited in place keeps its offsets and its line/column in step. Whoever assigns
+    # `<pos>.start_offset` also assigns `<pos>.column` and `<pos>.line_number` (unless the new offset is the start of the same
+    # line, found with rfind('\n')); whoever assigns `<pos>.end_offset` also assigns `.end_column` and `.end_line_number`.
+    from .. import sandbox as SB
+    P = ctx.P
+    PADT = "parser::position::Position"
+    stores = {fld: SB.field_stores(P, fld, adt=PADT) for fld in ("start_offset", "end_offset", "column", "end_column", "line_number", "end_line_number")}
+    n_grp = 0
+
+    def bases(fn_path, fld):
+        out = {}
+        g = P.funcs[fn_path]
+        for (bi, si, rv, sp) in stores[fld].get(fn_path, []):
+            st = g.blocks[bi]["stmts"][si]
+            out.setdefault(st["place"]["l"], []).append((bi, rv, sp))
+        return out
+
+    def same_line_start(g, rv):
+        """the stored value is `text[..old].rfind('\n').map(|i| i + 1).unwrap_or(0)`: the start of the same line"""
+        if rv["k"] != "use":
+            return False
+        cur = g.root_of(rv["a"], through_named=True)
+        for _ in range(8):
+            if cur[0] == "place":
+                dd = [d for d in g.defs.get(cur[1]["l"], []) if d[1] == "term"]
+                if len(dd) != 1:
+                    return False
+                cur = ("call", dd[0][0], dd[0][2])
+                continue
+            if cur[0] != "call":
+                return False
+            if (M.callee_name(cur[2]) or "").endswith("<impl str>::rfind"):
+                c = M.op_const(cur[2]["args"][1]) if len(cur[2]["args"]) > 1 else None
+                return c is not None and c.get("v") == 10
+            if not cur[2]["args"]:
+                return False
+            cur = g.root_of(cur[2]["args"][0], through_named=True)
+        return False
+    for off, col, line in (("start_offset", "column", "line_number"), ("end_offset", "end_column", "end_line_number")):
+        for fn_path in sorted(stores[off]):
+            g = P.funcs[fn_path]
+            for base, sts in sorted(bases(fn_path, off).items()):
+                n_grp += 1
+                key = "%s # Position.%s assigned" % (fn_path, off)
+                missing = []
+                if base not in bases(fn_path, col):
+                    missing.append(col)
+                if base not in bases(fn_path, line) and not (off == "start_offset" and all(same_line_start(g, rv) for _, rv, _ in sts)):
+                    missing.append(line)
+                if missing:
+                    res.bad("POSITION-GROUP", key + " # without " + ",".join(missing),
+                            "%s moves the %s of a position but leaves its %s as they were: line/column no longer agree with the offset (the LSP layer "
+                            "rebuilds ranges from the line number, `check --fix` uses offsets, so the two disagree)" % (fn_path, off, " and ".join(missing)),
+                            g.loc(sts[0][2]))
+                else:
+                    res.ok("POSITION-GROUP", key + ": %s and %s move with it" % (col, line))
+    res.floor("POSITION-GROUP", "in-place edits of Position offsets", n_grp, 4)
+
+    # ---- POSITION-PAIRS: in every Position built outside the lexer from the fields of other positions, the offset, line and
+    # column of each end are copied from one and the same end of one and the same source position
+    START_K = {"start_offset": "start", "line_number": "start", "column": "start",
+               "end_offset": "end", "end_line_number": "end", "end_column": "end"}
+    n_pairs = 0
+    for fn_path, g in sorted(P.funcs.items()):
+        if fn_path.startswith("parser::lex::") or fn_path.endswith("::clone"):
+            continue
+        k_ = 0
+        for b in g.blocks:
+            for st in b["stmts"]:
+                if st.get("s") != "assign" or st["rv"]["k"] != "agg" or st["rv"].get("adt") != PADT:
+                    continue
+                rv = st["rv"]
+                k_ += 1
+                srcs = {}
+                for fld, op in zip(rv["fields"], rv["ops"]):
+                    if fld not in START_K:
+                        continue
+                    r = g.root_of(op, through_named=True)
+                    if r[0] == "place":
+                        fp = g.field_path(r[1])
+                        if fp and fp[-1] in START_K:
+                            srcs[fld] = ((r[1]["l"], tuple(fp[:-1])), START_K[fp[-1]])
+                for end_name, flds in (("start", ("start_offset", "line_number", "column")), ("end", ("end_offset", "end_line_number", "end_column"))):
+                    known = [srcs[x] for x in flds if x in srcs]
+                    if len(known) < 2:
+                        continue
+                    n_pairs += 1
+                    key = "%s # Position literal %d # %s" % (fn_path, k_, end_name)
+                    if len(set(known)) == 1:
+                        res.ok("POSITION-PAIRS", key + ": offset, line and column copied from one end of one position")
+                    else:
+                        res.bad("POSITION-PAIRS", key + " # mixed",
+                                "the %s of a position built in %s takes its offset, line and column from different positions or different ends "
+                                "(%s): if those are not on the same line the position is inconsistent" % (
+                                    end_name, fn_path, ", ".join("%s<-%s" % (x, "%s.%s" % (".".join(srcs[x][0][1]) or g.local_name(srcs[x][0][0]) or "?", srcs[x][1])) for x in flds if x in srcs)),
+                                g.loc(st["span"]))
+    res.floor("POSITION-PAIRS", "position ends copied from other positions", n_pairs, 15)
 
     # ---- UNIT-MIX over the whole crate (byte offsets vs character counts)
     from .. import units as U
